@@ -459,7 +459,7 @@ def main(ck):
         return np.concatenate([dq_, (x2[1] - x1[1]) / h_, (x2[2] - x1[2]) / h_])
       base = step_from()
       Aref = np.zeros((ndx, ndx)); Cref = np.zeros((ns, ndx))
-      Acref = np.zeros((ndx, ndx))
+      Acref = np.zeros((ndx, ndx)); Ccref = np.zeros((ns, ndx))
       for i in range(ndx):
         e = np.zeros(ndx)
         e[i] = H
@@ -470,6 +470,8 @@ def main(ck):
           Cref[:, i] = (xp[3] - base[3]) / H
         xm = step_from(**{k_: -v_ for k_, v_ in args.items()})
         Acref[:, i] = sdiff(xm, xp, 2 * H)
+        if ns:
+          Ccref[:, i] = (xp[3] - xm[3]) / (2 * H)
       xs = 1 + np.abs(A).max()
       # reported deviation: for velocity perturbations mj_stepSkip re-uses the factorisation of M + h*diag(b) (Euler
       # implicit damping) although b = d(damping)/dv depends on qvel when damping is polynomial -> velocity columns of
@@ -495,12 +497,13 @@ def main(ck):
         stats['implicit_velgain_cases'] += 1
       A, Aref, Ac, Acref = A[:, cols], Aref[:, cols], Ac[:, cols], Acref[:, cols]
       if ns:
-        C, Cref = C[:, cols], Cref[:, cols]
+        C, Cref, Cc, Ccref = C[:, cols], Cref[:, cols], Cc[:, cols], Ccref[:, cols]
       close('A-forward', A, Aref, xs * max(1.0, cond ** 0.5), TOL_B, 'mjd_transitionFD A (forward) vs own perturbation of mj_step', 'transitionFD-A')
       close('A-centred', Ac, Acref, xs * max(1.0, cond ** 0.5), TOL_B, 'mjd_transitionFD A (centred) vs own perturbation of mj_step', 'transitionFD-A')
       close('A-fwd-vs-centred', A, Ac, xs * (1 + np.abs(v0).max()) * cond ** 0.5, TOL_FC, 'forward vs centred A', 'transitionFD-fwd-centred')
       if ns:
         close('C-forward', C, Cref, 1 + np.abs(C).max() + np.abs(base[3]).max(), TOL_B * 10, 'mjd_transitionFD C (forward) vs own perturbation', 'transitionFD-C')
+        close('C-centred', Cc, Ccref, 1 + np.abs(Cc).max() + np.abs(base[3]).max(), TOL_B * 10, 'mjd_transitionFD C (centred) vs own perturbation', 'transitionFD-C')
       # (ctrl outside its range + velocity gain: mj_step depends on the raw ctrl through qDeriv, see the carve-out above)
       if nu and stale_u and not ctrl_out:
         for i in range(nu):
@@ -511,7 +514,7 @@ def main(ck):
         # documented: control clamping is handled - a limited control is nudged forward only if ctrl and ctrl+eps are inside
         # its range, otherwise backward if possible (one-sided difference), otherwise the column is zero
         Bref = np.zeros((ndx, nu)); Dref = np.zeros((ns, nu))
-        Bcref = np.zeros((ndx, nu))
+        Bcref = np.zeros((ndx, nu)); Dcref = np.zeros((ns, nu))
         u0 = np.array(d.ctrl)
         for i in range(nu):
           lim = bool(m.actuator_ctrllimited[i])
@@ -536,13 +539,17 @@ def main(ck):
             labels.append('B-backward-at-upper-bound')
           if can_f and can_b:
             Bcref[:, i] = sdiff(xm, xp, 2 * H)
+            if ns:
+              Dcref[:, i] = (xp[3] - xm[3]) / (2 * H)
           else:
             Bcref[:, i] = Bref[:, i]
+            Dcref[:, i] = Dref[:, i]
         close('B-forward', B, Bref, 1 + np.abs(B).max() + np.abs(Bref).max(), TOL_B, 'mjd_transitionFD B (forward) vs own perturbation of ctrl', 'transitionFD-B')
         close('B-centred', Bc, Bcref, 1 + np.abs(Bc).max() + np.abs(Bcref).max(), TOL_B, 'mjd_transitionFD B (centred) vs own perturbation of ctrl', 'transitionFD-B')
         close('B-fwd-vs-centred', B, Bc, (1 + np.abs(B).max()) * cond ** 0.5, TOL_FC, 'forward vs centred B', 'transitionFD-fwd-centred')
         if ns:
           close('D-forward', Dm, Dref, 1 + np.abs(Dm).max() + np.abs(Dref).max() + np.abs(base[3]).max(), TOL_B * 10, 'mjd_transitionFD D vs own perturbation', 'transitionFD-D')
+          close('D-centred', Dc, Dcref, 1 + np.abs(Dc).max() + np.abs(Dcref).max() + np.abs(base[3]).max(), TOL_B * 10, 'mjd_transitionFD D (centred) vs own perturbation', 'transitionFD-D')
       labels.append('transitionFD-checked')
 
     # ============ (c) inverse-dynamics Jacobians
